@@ -1613,10 +1613,24 @@ class TeX(object):
                         issubclass(cls, (plasTeX.NewCommand, plasTeX.Definition,
                                          ParameterCommand, plasTeX.TheCounter))):
                     break
-            for t in self:
+                # Expand it one step only (pulling it through the expanding
+                # iterator would also run whatever follows an expansion
+                # that yields nothing, e.g. the closing brace after \empty)
+                for t in self.itertokens():
+                    break
+                obj = self.ownerDocument.createElement(name)
+                obj.contextDepth = t.contextDepth
+                obj.parentNode = t.parentNode
+                tokens = obj.invoke(self)
+                if tokens is None:
+                    self.pushToken(obj)
+                elif tokens:
+                    self.pushTokens(tokens)
+                continue
+            for t in self.itertokens():
                 break
-            else:
-                break
+            if t is None:
+                continue
             if t.nodeType == Macro.ELEMENT_NODE:
                 self.pushToken(t)
                 break
